@@ -209,22 +209,27 @@ NOT_YET = {}
 
 COMMON_NOTE = ('; every second shard does its work on a worker thread, after the main thread has imported pycel '
                '(nothing promised may depend on the importing thread)')
+SUITE = ("; the last shard also runs the repository's own test-suite with the monitors of vp.suitemon attached (read containment and edges, span balance, pass bound, cached values against a fresh compile of the file) and turns what they see for this property into violations")
 EXTRA_NOTES = {
     'C01': '; a share of the histories runs on the workbooks shipped with the repository (primed so that every value '
            'is computed); recalculate / value_tree_str / export_to_gexf are called in between and only the values of '
-           'later evaluate calls are judged',
+           'later evaluate calls are judged' + SUITE,
     'C03': '; also the shipped workbooks, sequences of saves of one model to one base name, floats with 16-17 digits',
-    'C04': '; also read traces of the shipped workbooks (OFFSET / INDIRECT cells exempt: computed references)',
+    'C04': '; also read traces of the shipped workbooks (OFFSET / INDIRECT cells exempt: computed references); builds '
+           'that fail part-way with cells built before and after them, edges judged when each evaluate returns' + SUITE,
+    'C06': '; acyclic twins also hold reference-valued cells (=OFFSET(x,0,0))' + SUITE,
     'C05': '; also the shipped workbooks, acyclic workbooks saved with iterative calculation on, and a comparison '
            'of the in-process reference values with those of a forked child of a process that never saw a workbook '
            '(state that outlives a workbook)',
     'C07': '; interpreter-wide settings (recursion limit, switch interval, working directory) are sampled at every '
-           'hook event and at quiescence; thread B works on a workbook with other values for value-carrying workloads',
+           'hook event and at quiescence; thread B works on a workbook with other values for value-carrying workloads; '
+           'a third kind of scheduling point below the hooks: sys.monitoring LINE events of the library, every distinct '
+           'statement a workload executes is a stop (sampled in the quick tier, all of them in the thorough tier)',
     'C08': '; also twin runs on the shipped workbooks, a trim that must be refused before the real one, an input that is '
            'also an output and has no dependants listed first',
     'C09': '; fault kinds also: NameError inside a plugin, unknown function named like a python keyword or like a '
            'constant of the math module; repair constants include 0; a write to a former precedent after the repair; '
-           'faults injected into the shipped workbooks',
+           'faults injected into the shipped workbooks' + SUITE,
     'C12': '; also workbooks saved with iterative calculation on, stored results computed by a pristine process, the '
            'shipped workbooks with one stored result altered in the file, formula_cells() listed first, two cells '
            'failing for the same reason',
